@@ -3387,6 +3387,26 @@ pub mod verif_hooks_reconfunits {
     //! endpoints a unit registers can be asked through the real handler.
     use super::*;
 
+    /// The same with a tracer the harness holds as well.
+    pub fn component_with_http_and_tracer(
+        name: &str,
+        type_name: &'static str,
+        ingresses: Arc<ingress::Register>,
+        http_resources: http::Resources,
+        tracer: Arc<Tracer>,
+    ) -> Component {
+        Component {
+            name: name.into(),
+            type_name,
+            http_client: None,
+            metrics: None,
+            http_resources,
+            roto_compiled: None,
+            tracer,
+            ingresses,
+        }
+    }
+
     pub fn component_with_http(
         name: &str,
         type_name: &'static str,
